@@ -364,6 +364,34 @@ class FGen:
                 continue
             if self.memory_bias and rng.random() < 0.45:
                 r = 0.3 + 0.25 * rng.random()     # user-type traffic
+            if rng.random() < 0.05 and not any(n in sc["bools"] or n in sc["uts"] or n in sc["arrs"]
+                                               for n in ("wn", "tot", "mom")) and "wn" not in sc["nums"]:
+                # neighbouring loops over the SAME counter and bounds where a later loop needs what an earlier one
+                # only completes in its last trip: fill, sum up, normalise in place, take a moment, look backwards
+                c = rng.choice(["i", "j"])
+                n = rng.choice([3, 4])
+                lo, hi = ["num", 0], ["num", n]
+                ops.append(["call", ["wn"], "<builtin>array", [["num", n]], {}, 0])
+                ops.append(["assign", "wn", ["var", c], ["+", ["*", ["num", rng.choice([0.5, 1.5, 2])], ["var", c]],
+                                                       ["num", rng.choice([1, 2.5])]], [[c, lo, hi]], 0])
+                ops.append(["assign", "tot", None, ["num", 0.5], [], 0])
+                ops.append(["assign", "tot", None, ["+", ["var", "tot"], ["sub", ["var", "wn"], ["var", c]]],
+                            [[c, lo, hi]], 0])
+                ops.append(["assign", "wn", ["var", c], ["/", ["sub", ["var", "wn"], ["var", c]], ["var", "tot"]],
+                            [[c, lo, hi]], 0])
+                ops.append(["assign", "mom", None, ["num", 0], [], 0])
+                back = ["sub", ["var", "wn"], ["-", ["num", n - 1], ["var", c]]]
+                ops.append(["assign", "mom", None, ["+", ["var", "mom"], ["*", ["var", c], back]], [[c, lo, hi]], 0])
+                sc["arrs"]["wn"] = n
+                for nm in ("tot", "mom"):
+                    if nm not in sc["nums"]:
+                        sc["nums"].append(nm)
+                tgt = rng.choice(persist["nums"]) if persist["nums"] else None
+                if tgt and tgt not in sc["bools"] and tgt not in sc["arrs"] and tgt not in sc["uts"]:
+                    ops.append(["assign", tgt, None, ["+", ["var", "mom"], ["*", ["num", 2], ["var", "tot"]]], [], 0])
+                    if tgt not in sc["nums"]:
+                        sc["nums"].append(tgt)
+                continue
             if rng.random() < 0.05 and not any(n in sc["nums"] or n in sc["bools"] or n in sc["uts"]
                                                for n in ("la", "lb", "lc", "ld")):
                 # products whose left factor is not square: (1x2)(2x2) -> 1x2 and (2x1)(1x2) -> 2x2, read back
